@@ -33,6 +33,9 @@ def cases(draw, types=("positive", "complex"), nrange=(1, 5), nhrange=(1, 6)):
         case["ph2"] = gen.rescale_case({"am": draw(gen.net_params(n, case["nh"]))}, 300.0)["am"]
     # second parameter set written IN PLACE into the same object after the first evaluation (history: evaluate, update, evaluate)
     case["am2"] = gen.rescale_case({"am": draw(gen.net_params(n, case["nh"]))}, 300.0)["am"]
+    if draw(st.booleans()):
+        # a replacement amplitude network (another number of hidden units) installed through the public rbm_am setter
+        case["am3"] = gen.rescale_case({"am": draw(gen.net_params(n, draw(st.integers(1, 6))))}, 300.0)["am"]
     return case
 
 
@@ -95,6 +98,15 @@ def check(case):
             check_round(case, state)
         except PropertyViolation as v:
             raise PropertyViolation("after-second-inplace-update:" + v.bucket, "after a second in-place parameter update (back to the first values): " + v.message, v.detail)
+    if case.get("am3"):
+        from qucumber.rbm import BinaryRBM
+        new = BinaryRBM(case["n"], len(case["am3"]["c"]), gpu=False)
+        gen.set_net(new, case["am3"])
+        state.rbm_am = new
+        try:
+            check_round(dict(case, am=case["am3"], am2=None), state)
+        except PropertyViolation as v:
+            raise PropertyViolation("after-network-replaced:" + v.bucket, "after installing another amplitude network through the rbm_am setter: " + v.message, v.detail)
     return r
 
 
